@@ -149,6 +149,8 @@ def names_augmented(fn: Fn, op) -> List[str]:
     out: List[str] = []
     for n in fn.direct_nodes():
         if isinstance(n, ast.AugAssign) and isinstance(n.op, op):
+            if isinstance(n.value, ast.Constant) and n.value.value == 0:
+                continue        # `x += 0` advances nothing: it does not make x a counter / an id
             c = cell_name(n.target)
             if c and c not in out:
                 out.append(c)
